@@ -1,7 +1,7 @@
 (** C20 — MCP tools are role-, flag- and principal-gated, confined and audited.
     Only theorem statements, each closed by [exact] of a lemma from Proofs/. *)
 From Coq Require Import String List Bool Arith.
-From HK Require Import Gen.McpTables Model.McpGate Model.McpSpec Proofs.McpGateProofs.
+From HK Require Import Gen.McpTables Model.McpGate Model.McpSpec Proofs.McpGateProofs Proofs.McpSessionProofs.
 Import ListNotations.
 Open Scope string_scope.
 
@@ -81,6 +81,29 @@ Theorem C20_foreign_path_refused : forall cfg a,
   a <> "" -> a <> cfg -> resolve_config_path cfg (Some a) = None.
 Proof. exact foreign_path_refused. Qed.
 
+(** Whole sessions.  For every server setting and every sequence of tools/call requests (any tools,
+    known or not, any outcome of each tool body): the audit log is exactly one record per call of a
+    mutating tool, in call order - [denied] for a refused call, [success]/[error] for a dispatched one -
+    and nothing else; a refused mutating call is recorded at the position of the call; a session of
+    read-only and unknown tools leaves no record. *)
+Theorem C20_session_audit_exact : forall s calls,
+  session_audit s calls = map (record_of s) (filter is_mutating calls).
+Proof. exact session_audit_exact. Qed.
+
+Theorem C20_session_audit_count : forall s calls,
+  length (session_audit s calls) = length (filter is_mutating calls).
+Proof. exact session_audit_length. Qed.
+
+Theorem C20_session_denied_recorded_in_place : forall s pre t b post,
+  mutating t = true -> access s t <> Allowed ->
+  session_audit s (pre ++ (t, b) :: post)%list =
+  (session_audit s pre ++ ADenied :: session_audit s post)%list.
+Proof. exact session_audit_denied_recorded. Qed.
+
+Theorem C20_session_readonly_silent : forall s calls,
+  Forall (fun c => mutating (fst c) = false) calls -> session_audit s calls = [].
+Proof. exact session_audit_readonly. Qed.
+
 Print Assumptions C20_gate_spec.
 Print Assumptions C20_roles_as_documented.
 Print Assumptions C20_call_spec.
@@ -91,3 +114,7 @@ Print Assumptions C20_audit_once.
 Print Assumptions C20_role_monotone.
 Print Assumptions C20_actor_bound.
 Print Assumptions C20_path_confined.
+Print Assumptions C20_session_audit_exact.
+Print Assumptions C20_session_audit_count.
+Print Assumptions C20_session_denied_recorded_in_place.
+Print Assumptions C20_session_readonly_silent.
